@@ -10,6 +10,7 @@ mod c04;
 mod c15;
 mod c16;
 mod client;
+mod poolop;
 mod server;
 mod tlsop;
 
@@ -32,6 +33,7 @@ fn eval(op: &str, args: &[&str]) -> Option<Vec<String>> {
         "envcheck" => c16::envcheck(args),
         "client" => client::client(args),
         "tls" => tlsop::tls(args),
+        "pool" => poolop::pool(args),
         "mailparam" => c04::mailparam(args),
         "ehlocmd" => c04::ehlocmd(args),
         "mailstd" => c04::mailstd(args),
